@@ -37,9 +37,9 @@ CHECKS = {
          "Exploration: the ordered sequence of (marker, arguments) host calls of each generated program equals the sequence obtained by left-to-right, short-circuit, guard-order evaluation in the reference interpreter.",
          "Trusts the reference interpreter's evaluation order, written from the property statement.",
          "DESIGN.md §4 C08"),
- "C11": ("model-based stateful testing over the embedding API: histories of build-runtime / compile / get / clone / call / drop (also on another thread) operations vs a liveness model over drop-tracked values stored in script constants (incl. a zero-sized one), registered constants and closure captures (incl. two closures of one Rust type)",
-         "Exploration: after every step of a generated history each call must return the model's value for its script version and runtime, and per tag the tracked values must be alive exactly while something refers to them; at the end everything must have been dropped exactly once.",
-         "Use-after-free of still-mapped JIT memory can go unnoticed (worker isolation catches crashes only); liveness tracked per tag.",
+ "C11": ("model-based stateful testing over the embedding API: histories of build-runtime / compile / get / clone / call / drop (also on another thread) operations vs a liveness model over drop-tracked values stored in script constants (incl. a zero-sized one), registered constants and closure captures (incl. two closures of one Rust type), plus an allocator-level invariant for machine code (page-aligned JIT regions alive = those of the packages still referred to), with owners that die during unwinding",
+         "Exploration: after every step of a generated history each call must return the model's value for its script version and runtime, and per tag the tracked values must be alive exactly while something refers to them; at the end everything, machine code included, must have been released exactly once.",
+         "Use-after-free of still-mapped JIT memory can go unnoticed (worker isolation catches crashes only); liveness tracked per tag; JIT memory is observed through the global allocator (page-aligned regions).",
          "DESIGN.md §4 C11"),
  "C12": ("multi-threaded stress of generated programs (2-8 threads x 50-200 calls on cloned handles, concurrent compile/drop threads) against the single-threaded results and host-call logs, with tracked-value accounting after join; plus rustc accept/reject probes of small embedding programs that try to share !Sync state",
          "Exploration: for each generated program every concurrent call returned the single-threaded value and log and the tracked-value balance was zero after join; each of eleven probe programs is accepted or rejected by rustc as the property requires.",
